@@ -30,11 +30,21 @@ class HistLearner:
         w = [1 + (_crc(self.h, self.n, i) % 5) for i in range(len(actions))]
         t = sum(w); return [x / t for x in w]
 
+    def finish(self):
+        # the hook ProcessTasks calls on a learner COPY after its evaluation (VowpalLearner releases its model there): a learner
+        # that has been finished cannot be used again, so the hook must never land on the object later copies are taken from
+        self.released = True
+
+    def _alive(self):
+        if getattr(self, "released", False): raise RuntimeError("learner %d is used after finish()" % self.lid)
+
     def score(self, context, actions, action):
+        self._alive()
         return self._pmf(context, actions)[actions.index(action)]
 
     def predict(self, context, actions):
         from coba.primitives import is_batch
+        self._alive()
         if is_batch(context) or is_batch(actions): raise TypeError("HistLearner does not take batches")   # SafeLearner falls back to per-row calls
         self.n += 1
         pmf = self._pmf(context, actions)
@@ -48,6 +58,7 @@ class HistLearner:
 
     def learn(self, context, action, reward, probability, **kwargs):
         from coba.primitives import is_batch
+        self._alive()
         if is_batch(context) or is_batch(action): raise TypeError("HistLearner does not take batches")
         self.h = _crc(self.h, round(float(reward), 6), round(float(probability), 6) if probability is not None else None, repr(action)[:40], sorted(kwargs.items()))
         if self.info:      # the documented way for a learner to report diagnostics: process-global learning_info
